@@ -54,7 +54,7 @@ class Interchain(Family):
         n = 120 if q else 2500
         env = dict(os.environ, TMPDIR=ctx.dir)
         traces = []
-        modes = [("", n), ("group", n // 2 if prop != "C05" else n)]
+        modes = [("", n), ("group", n // 2 if prop != "C05" else n), ("timed", n // 2 if prop not in ("C04", "C06") else n)]
         for i, (mode, cnt) in enumerate(modes):
             od = os.path.join(ctx.dir, "t-%d" % i)
             args = ["-n", str(cnt), "-seed", str(ctx.seed * 11 + i)] + (["-mode", mode] if mode else [])
